@@ -40,24 +40,27 @@ Proof. unfold elapse_periodic_with. cbn [snd]. change (EElapsed t :: ?l) with ([
 (* the key-down traits' events and the penalty *)
 Lemma fmb_penalize_events p r : snd (fmb_penalize p r) = snd r.
 Proof. unfold fmb_penalize. destruct (kd_ended (snd r)); reflexivity. Qed.
+Lemma fmb_penalize_elapse_events p r : snd (fmb_penalize_elapse p r) = snd r.
+Proof. unfold fmb_penalize_elapse. destruct (kd_ended (snd r)); reflexivity. Qed.
+Lemma ignore_rejected_no_reject r : rejected (snd (ignore_rejected r)) = false.
+Proof.
+  unfold ignore_rejected. cbn [snd]. induction (snd r) as [|e l IH]; cbn [filter]; [reflexivity|].
+  destruct e; cbn; try exact IH.
+Qed.
 Lemma kd_ended_reject : kd_ended [EReject] = false.
 Proof. reflexivity. Qed.
-
-(* the reducers that reduce a cooldown BEFORE the availability test *)
-Definition is_flare_trigger (c : xcomp) (m : xmeth) : bool :=
-  match c, m with FlareSlash, XChangeStance | FlareSlash, XStyx => true | _, _ => false end.
 
 Ltac finish_inj H R :=
   first [ injection H as <- <-; first [ split; [reflexivity | try reflexivity; try apply set_u_same]
                                        | exfalso; revert R; norej ] ].
 
-(* Every modelled reducer except FlareSlash.change_stance_trigger / styx_trigger *)
+(* Every modelled reducer (FlareSlash.change_stance_trigger / styx_trigger included: after the repair 5aadaec
+   they are @ignore_rejected and never report a rejection) *)
 Lemma xreject_alone pe dr c m p t s s' es :
-  is_flare_trigger c m = false ->
   xreduce pe dr c m p t s = Some (s', es) -> rejected es = true -> es = [EReject] /\ s' = s.
 Proof.
-  intros Hc H R.
-  destruct c, m; cbn [xreduce is_flare_trigger] in H, Hc; try discriminate; apply some_inj in H.
+  intros H R.
+  destruct c, m; cbn [xreduce] in H; try discriminate; apply some_inj in H.
   all: try (unfold rs_use, bf_use, hm_use, fmb_use, fc_use, lift, use_periodic_with_simple, use_buff_trait, use_periodic,
               use_keydown_trait, use_simple_attack in H;
             match type of H with context [if ?b then _ else _] => destruct b eqn:? end; cbn [fst snd] in H;
@@ -72,7 +75,7 @@ Proof.
     unfold hm_elapse in H. apply pair_eq in H. destruct H as [-> ->]. cbn [snd] in R. exfalso. revert R.
     change (EElapsed t :: ?l) with ([EElapsed t] ++ l). rewrite rejected_app, rejected_repeat_EDealt. discriminate.
   - (* full metal barrage elapse *)
-    unfold fmb_elapse in H. apply pair_eq in H. destruct H as [-> ->]. rewrite fmb_penalize_events in R. cbn [snd lift] in R.
+    unfold fmb_elapse in H. apply pair_eq in H. destruct H as [-> ->]. rewrite fmb_penalize_elapse_events in R. cbn [snd lift] in R.
     rewrite elapse_keydown_no_reject in R. discriminate.
   - (* fmb stop *)
     unfold fmb_stop, lift, stop_keydown_trait in H. destruct (negb (K.running (u_kd (x_u s)))) eqn:E; cbn [fst snd] in H.
@@ -109,6 +112,12 @@ Proof.
   - (* cosmos elapse *)
     unfold rs_elapse, lift in H. apply pair_eq in H. destruct H as [-> ->]. cbn [snd] in R.
     rewrite periodic_elapse_no_reject in R. discriminate.
+  - (* flare slash change_stance_trigger *)
+    unfold fs_trigger, lift in H. apply pair_eq in H. destruct H as [-> ->]. cbn [snd] in R.
+    rewrite ignore_rejected_no_reject in R. discriminate.
+  - (* flare slash styx_trigger *)
+    unfold fs_trigger, lift in H. apply pair_eq in H. destruct H as [-> ->]. cbn [snd] in R.
+    rewrite ignore_rejected_no_reject in R. discriminate.
   - (* blade storm use *)
     unfold bs_use, lift, use_keydown_trait in H.
     destruct (negb (avail (x_u s)) || K.running (u_kd (x_u s))); cbn [fst snd rejected existsb is_reject orb] in H;
@@ -134,25 +143,27 @@ Proof.
 Qed.
 
 Lemma xreject_alone_spec c m p t s s' es :
-  is_flare_trigger c m = false ->
   xreduce_spec c m p t s = Some (s', es) -> rejected es = true -> es = [EReject] /\ s' = s.
 Proof. apply xreject_alone. Qed.
 
-(* FlareSlash.change_stance_trigger / styx_trigger as shipped: the rejection is alone, but the cooldown was reduced
-   before the availability test.  Largest true sub-statement + the witness. *)
-Definition restore_cd (s' s : xst) : xst := set_u s' (set_cd (x_u s') (u_cd (x_u s))).
-Lemma flare_trigger_reject_partial c m p t s s' es :
-  is_flare_trigger c m = true ->
-  xreduce_spec c m p t s = Some (s', es) -> rejected es = true ->
-  es = [EReject] /\ restore_cd s' s = s /\
-  u_cd (x_u s') = u_cd (x_u s) - (match m with XChangeStance => xp_t1 p | _ => xp_t2 p end).
+(* FlareSlash.change_stance_trigger / styx_trigger (after the repair 5aadaec): never a rejection; while the slash
+   is still cooling down after the reduction the trigger is silent and only shortens the cooldown; otherwise it
+   fires the slash. *)
+Lemma flare_trigger_silent c m p t s s' es :
+  (c = FlareSlash /\ (m = XChangeStance \/ m = XStyx)) ->
+  xreduce_spec c m p t s = Some (s', es) ->
+  rejected es = false /\
+  let r := match m with XChangeStance => xp_t1 p | _ => xp_t2 p end in
+  (0 < u_cd (x_u s) - r -> es = [] /\ s' = set_u s (set_cd (x_u s) (u_cd (x_u s) - r))).
 Proof.
-  intros Hc H R. destruct c, m; try discriminate; cbn in H; apply some_inj in H;
-    unfold fs_trigger, lift, use_simple_attack in H; cbn [x_u set_u] in H;
-    match type of H with context [if ?b then _ else _] => destruct b eqn:? end; cbn [fst snd] in H;
-    injection H as <- <-; try (exfalso; revert R; cbn; discriminate);
-    (split; [reflexivity|]; split; [|reflexivity]);
-    destruct s as [u rm l2 l3 k2 ls cy it dp]; destruct u; reflexivity.
+  intros [-> Hm] H. split.
+  - destruct Hm as [-> | ->]; cbn in H; apply some_inj in H; unfold fs_trigger, lift in H;
+      apply pair_eq in H; destruct H as [_ ->]; cbn [snd]; apply ignore_rejected_no_reject.
+  - cbn zeta. intros Hcd.
+    destruct Hm as [-> | ->]; cbn in H; apply some_inj in H; unfold fs_trigger, lift, use_simple_attack, ignore_rejected, avail in H;
+      cbn [x_u set_u u_cd set_cd] in H;
+      match type of H with context [?a <=? 0] => destruct (Z.leb_spec a 0) as [L|L]; [exfalso; cbn in L; lia|] end;
+      cbn in H; injection H as <- <-; split; reflexivity.
 Qed.
 
 Definition u0 : ust :=
@@ -162,12 +173,11 @@ Definition par0 : par := mkPar false (1, 1) 0 12000 0 0 0 0%nat [] (0, 0) (0, 0)
 Definition flare_par : xpar := mkXP par0 (0, 0) 0 800 1200 1 1 [].
 Definition flare_state : xst := set_u x0 (set_cd u0 10000).
 
-Lemma flare_trigger_reject_refuted :
-  exists p s s' es, xreduce_spec FlareSlash XChangeStance p 0 s = Some (s', es) /\ rejected es = true /\ s' <> s.
-Proof.
-  exists flare_par, flare_state. eexists. eexists. split; [vm_compute; reflexivity|].
-  split; [reflexivity|]. intros H. apply (f_equal (fun x => u_cd (x_u x))) in H. vm_compute in H. discriminate.
-Qed.
+(* the witness of the former findings C07-flareslash-change-stance-trigger / -styx-trigger: now silent *)
+Example flare_trigger_repaired :
+  xreduce_spec FlareSlash XChangeStance flare_par 0 flare_state = Some (set_u x0 (set_cd u0 9200), []) /\
+  xreduce_spec FlareSlash XStyx flare_par 0 flare_state = Some (set_u x0 (set_cd u0 8800), []).
+Proof. split; reflexivity. Qed.
 
 (* the silent triggers: when the listening reducer does nothing it reports nothing and returns the input state *)
 Lemma silent_triggers p t s :
